@@ -285,7 +285,7 @@ class SingleParticle(object):
         if self.particle.issoluble:
             de = self.particle.diameter(m, T, P)
         else:
-            de = self.particle.diameter(m, T, P, Sa, Ta)
+            de = self.particle.diameter(np.atleast_1d(m)[0], T, P, Sa, Ta)
         
         # Return the diameter
         return de
@@ -1483,7 +1483,7 @@ def wuest_ic(u_0, particles, lambda_1, lambda_ave, us, rho_p, rho, Q, R,
         """
         # Get the void fraction for the current estimate of the mixture of 
         # dispersed phases and entrained ambient water
-        xi = void_fraction(u, particles, lambda_1, us, Q, R)
+        xi = void_fraction(u[0], particles, lambda_1, us, Q, R)
         
         # Get the mixed-fluid plume density
         rho_m = np.sum(xi * rho_p) + (1. - np.sum(xi)) * rho
